@@ -309,6 +309,55 @@ Proof. intros Hp Hnz Ha Hb. induction n as [|n IH]; cbn [C19_Expect.expect score
       unfold score. field. now apply Hnz. }
   rewrite !sumn_add, !sumn_scale_r, Hp. unfold C19_ErrFormulas.fisher_core. ring. Qed.
 
+(* ---------- Fisher information of the whole experiment: additive over independent schedules with DIFFERENT distributions,
+   outcome counts, gradients and shot numbers ---------- *)
+(* a schedule together with the gradients G (row x = gradient of p_x) of its distribution *)
+Definition sched_ok (a b : nat) (sg : sched F * mat) : Prop :=
+  let '((m, p, n), G) := sg in
+  sumn m p = 1 /\ (1 <= n)%nat /\ (forall x, (x < m)%nat -> p x <> 0) /\ sumn m (fun x => G x a) = 0 /\ sumn m (fun x => G x b) = 0.
+(* score of the complete record obs (one outcome sequence per schedule) for parameter a *)
+Fixpoint score_total (ssG : list (sched F * mat)) (a : nat) (obs : list (list nat)) : F :=
+  match ssG with
+  | [] => 0
+  | ((m, p, n), G) :: t => score_sum p G a (hd [] obs) + score_total t a (tl obs)
+  end.
+(* sum_j n_j F_j *)
+Fixpoint fisher_info (ssG : list (sched F * mat)) (a b : nat) : F :=
+  match ssG with
+  | [] => 0
+  | ((m, p, n), G) :: t => of_nat n * fisher_core F m p G a b + fisher_info t a b
+  end.
+Lemma sched_ok_valid a b ssG : Forall (sched_ok a b) ssG -> Forall (valid_sched F) (map fst ssG).
+Proof. induction 1 as [|[[[m p] n] G] t H _ IH]; cbn [map fst]; constructor; [|exact IH].
+  destruct H as (Hp & Hn & _). split; assumption. Qed.
+Lemma score_total_mean a b ssG : Forall (sched_ok a b) ssG ->
+  expectL (map fst ssG) (fun obs => score_total ssG a obs) = 0 /\ expectL (map fst ssG) (fun obs => score_total ssG b obs) = 0.
+Proof. induction 1 as [|[[[m p] n] G] t H Ht IH]; cbn [map fst C19_Expect.expectL score_total]; [split; reflexivity|].
+  destruct H as (Hp & Hn & Hnz & Ha & Hb). destruct IH as [IHa IHb].
+  pose proof (sched_ok_valid a b t Ht) as Hv. split.
+  - rewrite (expect_ext F m p n _ (fun s => score_sum p G a s)).
+    2:{ intros s _. cbn [hd tl]. rewrite expectL_add, (expectL_const F _ _ Hv).
+        replace (expectL (map fst t) (score_total t a)) with 0 by (symmetry; exact IHa). ring. }
+    now apply expect_score_sum.
+  - rewrite (expect_ext F m p n _ (fun s => score_sum p G b s)).
+    2:{ intros s _. cbn [hd tl]. rewrite expectL_add, (expectL_const F _ _ Hv).
+        replace (expectL (map fst t) (score_total t b)) with 0 by (symmetry; exact IHb). ring. }
+    now apply expect_score_sum. Qed.
+Theorem fisher_info_additive a b ssG : Forall (sched_ok a b) ssG ->
+  expectL (map fst ssG) (fun obs => score_total ssG a obs * score_total ssG b obs) = fisher_info ssG a b.
+Proof. induction 1 as [|[[[m p] n] G] t H Ht IH]; cbn [map fst C19_Expect.expectL score_total fisher_info]; [ring|].
+  destruct H as (Hp & Hn & Hnz & Ha & Hb).
+  pose proof (sched_ok_valid a b t Ht) as Hv. destruct (score_total_mean a b t Ht) as [Ma Mb].
+  rewrite (expect_ext F m p n _ (fun s => score_sum p G a s * score_sum p G b s + fisher_info t a b)).
+  2:{ intros s _. cbn [hd tl].
+      rewrite (expectL_ext F (map fst t) _ (fun st => score_sum p G a s * score_sum p G b s + score_sum p G a s * score_total t b st
+                                                   + score_sum p G b s * score_total t a st + score_total t a st * score_total t b st))
+        by (intros; ring).
+      rewrite !expectL_add, !expectL_scale, (expectL_const F _ _ Hv), IH.
+      replace (expectL (map fst t) (score_total t a)) with 0 by (symmetry; exact Ma).
+      replace (expectL (map fst t) (score_total t b)) with 0 by (symmetry; exact Mb). ring. }
+  rewrite expect_add, (expect_const F m p n _ Hp), (fisher_n_draws m p G a b n Hp Hnz Ha Hb). reflexivity. Qed.
+
 (* ---------- Cramer-Rao: the inverse (hence the bound) is determined by the certificate ---------- *)
 Theorem inverse_unique n (Fm M M' : mat) :
   meq n n (mmul n Fm M) mid -> meq n n (mmul n M' Fm) mid -> meq n n M' M.
